@@ -962,10 +962,10 @@ func announce(s string) { fmt.Fprintf(os.Stderr, "ANNOUNCE %s\n", s) }
 // c12Judge runs Recv repeatedly over stream (with the given fragmentation) and compares with the reference.
 func c12Judge(r *SeqRun, fs framingSpec, stream []byte, cuts []int, eof, oneByte bool, dangerous bool) string {
 	if dangerous {
-		announce(fmt.Sprintf("%s stream=%q", fs.Name, stream))
+		announce(fmt.Sprintf("%s stream=%s", fs.Name, abbrevQ(stream)))
 	}
 	input := func() string {
-		return fmt.Sprintf("%s stream=%q cuts=%v eofWithLast=%v oneByte=%v", fs.Name, stream, cuts, eof, oneByte)
+		return fmt.Sprintf("%s stream=%s cuts=%v eofWithLast=%v oneByte=%v", fs.Name, abbrevQ(stream), abbrevCuts(cuts), eof, oneByte)
 	}
 	rd := &cutReader{data: stream, cuts: cuts, eofWithLast: eof, oneByte: oneByte}
 	ch := fs.F(rd, &bufWC{})
@@ -989,7 +989,7 @@ func c12Judge(r *SeqRun, fs framingSpec, stream []byte, cuts []int, eof, oneByte
 			}
 			// R3: never fabricate: a returned payload is a contiguous slice of the stream
 			if len(b) > 0 && !bytes.Contains(stream, b) {
-				r.Fail("C12.R3", input(), fmt.Sprintf("Recv returned %q, which is not a contiguous slice of the stream", b), "")
+				r.Fail("C12.R3", input(), fmt.Sprintf("Recv returned %s, which is not a contiguous slice of the stream", abbrevQ(b)), "")
 				return
 			}
 			if specified {
@@ -1000,7 +1000,7 @@ func c12Judge(r *SeqRun, fs framingSpec, stream []byte, cuts []int, eof, oneByte
 					if ref.ErrMaybe {
 						if len(b) > 0 || err == nil {
 							if !bytes.Equal(b, ref.Rec) {
-								r.Fail("C12.R2", input(), fmt.Sprintf("the documented format yields record %q here, Recv returned %q (err=%v)", ref.Rec, b, err), "")
+								r.Fail("C12.R2", input(), fmt.Sprintf("the documented format yields record %s here, Recv returned %s (err=%v)", abbrevQ(ref.Rec), abbrevQ(b), err), "")
 								return
 							}
 						}
@@ -1015,11 +1015,11 @@ func c12Judge(r *SeqRun, fs framingSpec, stream []byte, cuts []int, eof, oneByte
 						return
 					}
 					if err != nil && !ref.WantErr {
-						r.Fail("C12.R2", input(), fmt.Sprintf("the documented format yields record %q here, Recv failed with %v", ref.Rec, err), "")
+						r.Fail("C12.R2", input(), fmt.Sprintf("the documented format yields record %s here, Recv failed with %v", abbrevQ(ref.Rec), err), "")
 						return
 					}
 					if (err == nil || b != nil) && !bytes.Equal(b, ref.Rec) && !(fs.Kind == "rawjson" && string(ref.Rec) == "null" && len(b) == 0) {
-						r.Fail("C12.R2", input(), fmt.Sprintf("the documented format yields record %q here, Recv returned %q (err=%v)", ref.Rec, b, err), "")
+						r.Fail("C12.R2", input(), fmt.Sprintf("the documented format yields record %s here, Recv returned %s (err=%v)", abbrevQ(ref.Rec), abbrevQ(b), err), "")
 						return
 					}
 					rest = rest[ref.Consumed:]
@@ -1029,11 +1029,11 @@ func c12Judge(r *SeqRun, fs framingSpec, stream []byte, cuts []int, eof, oneByte
 				case mustFail:
 					class += "F"
 					if err == nil {
-						r.Fail("C12.R2", input(), fmt.Sprintf("no record can be framed from %q, but Recv returned %q without error", rest, b), "")
+						r.Fail("C12.R2", input(), fmt.Sprintf("no record can be framed from %s, but Recv returned %s without error", abbrevQ(rest), abbrevQ(b)), "")
 						return
 					}
 					if fs.Kind == "split" && len(b) > 0 && !bytes.Equal(b, ref.Tail) {
-						r.Fail("C12.R2", input(), fmt.Sprintf("final record %q cut off by end of stream was shortened to %q", ref.Tail, b), "")
+						r.Fail("C12.R2", input(), fmt.Sprintf("final record %s cut off by end of stream was shortened to %s", abbrevQ(ref.Tail), abbrevQ(b)), "")
 						return
 					}
 					specified = false
@@ -1052,6 +1052,22 @@ func c12Judge(r *SeqRun, fs framingSpec, stream []byte, cuts []int, eof, oneByte
 		class += "P"
 	}
 	return class
+}
+
+// abbrevQ quotes b for a message; long values (the multi-megabyte bodies) are shown as head, length and tail:
+// the scenarios that use them build them deterministically, so nothing is lost for reproducing a report.
+func abbrevQ(b []byte) string {
+	if len(b) <= 600 {
+		return fmt.Sprintf("%q", b)
+	}
+	return fmt.Sprintf("%q...(%d bytes in all)...%q", b[:240], len(b), b[len(b)-120:])
+}
+
+func abbrevCuts(c []int) string {
+	if len(c) <= 40 {
+		return fmt.Sprint(c)
+	}
+	return fmt.Sprintf("%v...(%d cuts in all)", c[:40], len(c))
 }
 
 func c12Split(fs framingSpec, maxLen int) *Scenario {
